@@ -59,6 +59,29 @@ class This(Expr):
     pass
 
 
+_QUAL = {}  # type name -> qualified name in .emb text, set by render_module for the module being rendered
+
+
+def qual(name):
+    return _QUAL.get(name, name)
+
+
+def set_qualification(m):
+    _QUAL.clear()
+    for t in list(m.enums) + list(m.structs):
+        if getattr(t, "parent", None):
+            _QUAL[t.name] = qual_of(m, t)
+
+
+def qual_of(m, t):
+    parts = [t.name]
+    cur = t
+    while getattr(cur, "parent", None):
+        parts.insert(0, cur.parent)
+        cur = m.struct(cur.parent)
+    return ".".join(parts)
+
+
 def render(e):
     if isinstance(e, Const):
         if e.v is True:
@@ -67,7 +90,7 @@ def render(e):
             return "false"
         return str(e.v)
     if isinstance(e, EnumConst):
-        return f"{e.enum}.{e.name}"
+        return f"{qual(e.enum)}.{e.name}"
     if isinstance(e, Ref):
         return ".".join(e.path)
     if isinstance(e, Param):
@@ -158,6 +181,7 @@ class StructDef:
     def __init__(self, name, kind="struct", params=(), fields=(), requires=None, default_byte_order=None):
         self.name, self.kind = name, kind  # kind: struct | bits
         self.default_byte_order = default_byte_order  # [$default byte_order: ...] inside the struct
+        self.parent = None  # name of the struct this type is defined inside (inline type definition)
         self.params = list(params)  # [(name, 'UInt'|'Int'|enum name, bits)]
         self.fields = list(fields)
         self.requires = requires
@@ -170,6 +194,7 @@ class StructDef:
 class EnumDef:
     def __init__(self, name, values, max_bits=64, signed=False):
         self.name, self.values, self.max_bits, self.signed = name, list(values), max_bits, signed
+        self.parent = None  # name of the struct this enum is defined inside
 
 
 class ModuleDef:
@@ -198,12 +223,12 @@ class ModuleDef:
 
 def _type_text(t):
     if isinstance(t, Scalar):
-        name = t.enum if t.kind == "Enum" else t.kind
+        name = qual(t.enum) if t.kind == "Enum" else t.kind
         return name
     if isinstance(t, StructRef):
         if t.args:
-            return t.name + "(" + ", ".join(render_top(a) for a in t.args) + ")"
-        return t.name
+            return qual(t.name) + "(" + ", ".join(render_top(a) for a in t.args) + ")"
+        return qual(t.name)
     if isinstance(t, ArrayT):
         base = _type_text(t.elem)
         if isinstance(t.elem, Scalar):
@@ -241,31 +266,56 @@ def _render_field(f, indent, out):
         out.append(f'{sub}[text_output: "Emit"]')
 
 
+def _render_enum(e, indent, out):
+    pad = " " * indent
+    out.append(f"{pad}enum {e.name}:")
+    if e.max_bits != 64:
+        out.append(f"{pad}  [maximum_bits: {e.max_bits}]")
+    if e.signed:
+        out.append(f"{pad}  [is_signed: true]")
+    for n, v in e.values:
+        out.append(f"{pad}  {n} = {v}")
+
+
+def _render_struct(m, s, indent, out):
+    pad = " " * indent
+    params = ""
+    if s.params:
+        ps = []
+        for n, k, b in s.params:
+            ps.append(f"{n}: {k}:{b}" if k in ("UInt", "Int") else f"{n}: {qual(k)}")
+        params = "(" + ", ".join(ps) + ")"
+    out.append(f"{pad}{s.kind} {s.name}{params}:")
+    if getattr(s, "default_byte_order", None):
+        out.append(f'{pad}  [$default byte_order: "{s.default_byte_order}"]')
+    if s.requires is not None:
+        out.append(f"{pad}  [requires: {render_top(s.requires)}]")
+    # inline type definitions come first
+    for e in m.enums:
+        if getattr(e, "parent", None) == s.name:
+            _render_enum(e, indent + 2, out)
+    for c in m.structs:
+        if getattr(c, "parent", None) == s.name:
+            _render_struct(m, c, indent + 2, out)
+    for f in s.fields:
+        _render_field(f, indent + 2, out)
+
+
 def render_module(m):
+    set_qualification(m)
     out = []
     if m.default_byte_order:
         out.append(f'[$default byte_order: "{m.default_byte_order}"]')
     out.append(f'[(cpp) namespace: "{m.namespace}"]')
     for e in m.enums:
-        out.append(f"enum {e.name}:")
-        if e.max_bits != 64:
-            out.append(f"  [maximum_bits: {e.max_bits}]")
-        if e.signed:
-            out.append("  [is_signed: true]")
-        for n, v in e.values:
-            out.append(f"  {n} = {v}")
+        if not getattr(e, "parent", None):
+            _render_enum(e, 0, out)
     for s in m.structs:
-        params = ""
-        if s.params:
-            ps = []
-            for n, k, b in s.params:
-                ps.append(f"{n}: {k}:{b}" if k in ("UInt", "Int") else f"{n}: {k}")
-            params = "(" + ", ".join(ps) + ")"
-        out.append(f"{s.kind} {s.name}{params}:")
-        if getattr(s, "default_byte_order", None):
-            out.append(f'  [$default byte_order: "{s.default_byte_order}"]')
-        if s.requires is not None:
-            out.append(f"  [requires: {render_top(s.requires)}]")
-        for f in s.fields:
-            _render_field(f, 2, out)
+        if not getattr(s, "parent", None):
+            _render_struct(m, s, 0, out)
     return "\n".join(out) + "\n"
+
+
+def cpp_type_name(m, t):
+    """C++ name of an enum or struct type relative to the module's namespace (Outer::Inner)."""
+    return qual_of(m, t).replace(".", "::")
